@@ -3,14 +3,33 @@ package container
 import (
 	"bytes"
 	"encoding/gob"
+	"errors"
 	"fmt"
 	"reflect"
+	"syscall"
 
 	"github.com/criyle/go-sandbox/pkg/unixsocket"
 )
 
 // 32k buffer size
 const bufferSize = 32 << 10
+
+// rejectedError reports a message that was refused as a whole: too large for the frame, more
+// descriptors than one packet carries, a descriptor that is not open. Nothing of it reached the
+// peer and the connection is as usable as before, so it is a failure of that message only.
+type rejectedError struct {
+	err error
+}
+
+func (e *rejectedError) Error() string { return e.err.Error() }
+
+func (e *rejectedError) Unwrap() error { return e.err }
+
+// isRejected tells whether a send failed because the message was refused (see rejectedError)
+func isRejected(err error) bool {
+	var rej *rejectedError
+	return errors.As(err, &rej)
+}
 
 type socket struct {
 	*unixsocket.Socket
@@ -73,7 +92,7 @@ func (s *socket) SendMsg(e any, msg unixsocket.Msg) error {
 			return fmt.Errorf("send msg: encode: %w", err)
 		}
 		if trial.Len() > bufferSize {
-			return fmt.Errorf("send msg: payload too large: %d > %d", trial.Len(), bufferSize)
+			return &rejectedError{fmt.Errorf("send msg: payload too large: %d > %d", trial.Len(), bufferSize)}
 		}
 	}
 	s.sendBuff.Reset()
@@ -81,7 +100,7 @@ func (s *socket) SendMsg(e any, msg unixsocket.Msg) error {
 		return fmt.Errorf("send msg: encode: %w", err)
 	}
 	if s.sendBuff.Len() > bufferSize {
-		return fmt.Errorf("send msg: payload too large: %d > %d", s.sendBuff.Len(), bufferSize)
+		return &rejectedError{fmt.Errorf("send msg: payload too large: %d > %d", s.sendBuff.Len(), bufferSize)}
 	}
 
 	if err := s.Socket.SendMsg(s.sendBuff.Bytes(), msg); err != nil {
@@ -89,6 +108,13 @@ func (s *socket) SendMsg(e any, msg unixsocket.Msg) error {
 			// nothing has reached the peer yet: start the stream over, so that the
 			// definition goes out again with the next message
 			s.encoder = gob.NewEncoder(&s.sendBuff)
+		}
+		// sendmsg refuses the packet, not the connection, for a descriptor that is not open
+		// (EBADF) and for more descriptors or bytes than a packet may carry
+		for _, errno := range []syscall.Errno{syscall.EBADF, syscall.EINVAL, syscall.EMSGSIZE, syscall.ETOOMANYREFS} {
+			if errors.Is(err, errno) {
+				return &rejectedError{fmt.Errorf("send msg: %w", err)}
+			}
 		}
 		return fmt.Errorf("send msg: %w", err)
 	}
